@@ -3,6 +3,7 @@ package interp
 import (
 	"fmt"
 	"os"
+	"time"
 	"go/token"
 	"sort"
 
@@ -87,6 +88,11 @@ type pathState struct {
 	condWaits       int
 	fnsCalled       map[*ssa.Function]bool
 	harness         *Harness
+	oneShot         *smt.OneShot
+	oneShotTimeout  time.Duration
+	oneShotErr      string
+	oneShotQueries  int
+	oneShotTime     time.Duration
 	knownSeen       map[string]bool
 	facts           map[*term.Term]bool
 	consts          term.Env
@@ -156,8 +162,61 @@ func (in *Interp) modelToEnv(m Model) term.Env {
 func (in *Interp) addPC(c T) {
 	p := in.path
 	p.pc = append(p.pc, c)
-	in.solver.Assert(c)
+	if p.oneShot == nil {
+		in.solver.Assert(c)
+	}
 	in.learn(c, true)
+}
+
+func (in *Interp) lastSolverErr() string {
+	if in.path != nil && in.path.oneShot != nil {
+		return in.path.oneShotErr
+	}
+	return in.solver.LastErr
+}
+
+// query asks whether PC (plus an optional assumption) is satisfiable.
+func (in *Interp) query(assume T, wantModel bool) (smt.Result, term.Env, error) {
+	p := in.path
+	if p.oneShot != nil {
+		asserts := append([]T(nil), p.pc...)
+		if assume != nil {
+			asserts = append(asserts, assume)
+		}
+		var vars []T
+		if wantModel {
+			vars = in.tb.Vars
+		}
+		r, env, out, d := p.oneShot.Solve(asserts, vars, p.oneShotTimeout)
+		p.oneShotQueries++
+		p.oneShotTime += d
+		if r == smt.Unknown {
+			p.oneShotErr = firstLine(out)
+		}
+		if r == smt.Sat && env != nil {
+			// variables not occurring in the query are unconstrained
+			for _, v := range in.tb.Vars {
+				if _, ok := env[v]; !ok {
+					env[v] = 0
+				}
+			}
+		}
+		if r == smt.Sat && env == nil && wantModel {
+			return r, nil, fmt.Errorf("no model from %s: %s", p.oneShot.Name, firstLine(out))
+		}
+		return r, env, nil
+	}
+	var r smt.Result
+	if assume != nil {
+		r = in.solver.Check(assume)
+	} else {
+		r = in.solver.Check()
+	}
+	if r == smt.Sat && wantModel {
+		env, err := in.solver.Model(in.tb.Vars)
+		return r, env, err
+	}
+	return r, nil, nil
 }
 
 // learn records facts implied syntactically by a path-condition conjunct:
@@ -185,6 +244,8 @@ func (in *Interp) learn(c T, val bool) {
 		if !val {
 			in.learn(c.A[0], false)
 			in.learn(c.A[1], false)
+		} else {
+			in.learnImplied(c, true)
 		}
 	case term.Var:
 		p.consts[c] = b2u(val)
@@ -329,10 +390,9 @@ func (in *Interp) ensureModel() {
 		// verify lazily that new variables default to 0: nothing to do
 		return
 	}
-	r := in.solver.Check()
+	r, env, err := in.query(nil, true)
 	switch r {
 	case smt.Sat:
-		env, err := in.solver.Model(in.tb.Vars)
 		if err != nil {
 			panic(abortPath{abortEngine, "model extraction failed: " + err.Error()})
 		}
@@ -341,7 +401,7 @@ func (in *Interp) ensureModel() {
 	case smt.Unsat:
 		panic(abortPath{abortInfeasible, "path condition unsatisfiable"})
 	default:
-		panic(abortPath{abortUnsupported, "solver returned unknown for path condition: " + in.solver.LastErr})
+		panic(abortPath{abortUnsupported, "solver returned unknown for path condition: " + in.lastSolverErr()})
 	}
 }
 
@@ -388,18 +448,18 @@ func (in *Interp) decide(c T) bool {
 	} else {
 		other = c
 	}
-	r := in.solver.Check(other)
+	r, oenv, oerr := in.query(other, true)
 	if debugOneSided && r == smt.Unsat {
 		fmt.Fprintf(os.Stderr, "ONESIDED %v: %s\n", mv, c)
 	}
 	if r == smt.Sat || r == smt.Unknown {
 		item := WorkItem{Prefix: append(append([]Decision(nil), p.decs...), Decision{B: !mv})}
 		if r == smt.Sat {
-			if env, err := in.solver.Model(in.tb.Vars); err == nil {
-				item.Model = in.envToModel(env)
+			if oerr == nil && oenv != nil {
+				item.Model = in.envToModel(oenv)
 			}
 		} else {
-			p.notes = append(p.notes, "branch feasibility unknown: "+in.solver.LastErr)
+			p.notes = append(p.notes, "branch feasibility unknown: "+in.lastSolverErr())
 		}
 		p.newItems = append(p.newItems, item)
 	}
@@ -458,15 +518,15 @@ func (in *Interp) concretise(t T) int64 {
 		v := in.evalModel(t)
 		c := in.tb.Bin(term.Eq, t, in.tb.BV(t.W, v))
 		nc := in.tb.Not(c)
-		r := in.solver.Check(nc)
+		r, oenv, oerr := in.query(nc, true)
 		if r == smt.Sat || r == smt.Unknown {
 			item := WorkItem{Prefix: append(append([]Decision(nil), p.decs...), Decision{B: false, V: v, HasV: true})}
 			if r == smt.Sat {
-				if env, err := in.solver.Model(in.tb.Vars); err == nil {
-					item.Model = in.envToModel(env)
+				if oerr == nil && oenv != nil {
+					item.Model = in.envToModel(oenv)
 				}
 			} else {
-				p.notes = append(p.notes, "concretisation feasibility unknown: "+in.solver.LastErr)
+				p.notes = append(p.notes, "concretisation feasibility unknown: "+in.lastSolverErr())
 			}
 			p.newItems = append(p.newItems, item)
 		}
@@ -518,14 +578,11 @@ func (in *Interp) check(c T, label string, pos string) {
 		env = p.model
 	} else {
 		p.assertQueries++
-		r = in.solver.Check(neg)
-		if r == smt.Sat {
-			var err error
-			env, err = in.solver.Model(in.tb.Vars)
-			if err != nil {
-				p.notes = append(p.notes, "model extraction failed for "+label)
-				r = smt.Unknown
-			}
+		var err error
+		r, env, err = in.query(neg, true)
+		if r == smt.Sat && (err != nil || env == nil) {
+			p.notes = append(p.notes, "model extraction failed for "+label)
+			r = smt.Unknown
 		}
 		if p.queryHook != nil {
 			p.queryHook(label, p.pc, neg, r)
@@ -543,7 +600,7 @@ func (in *Interp) check(c T, label string, pos string) {
 			panic(abortPath{abortStop, "violation recorded"})
 		}
 	default:
-		p.notes = append(p.notes, fmt.Sprintf("assertion %q: solver unknown (%s)", label, in.solver.LastErr))
+		p.notes = append(p.notes, fmt.Sprintf("assertion %q: solver unknown (%s)", label, in.lastSolverErr()))
 	}
 	// continue under the assumption that the assertion holds
 	if c.IsFalse() {
@@ -552,7 +609,7 @@ func (in *Interp) check(c T, label string, pos string) {
 	in.addPC(c)
 	if p.modelOK && in.evalModel(c) == 0 {
 		p.modelOK = false
-		rr := in.solver.Check()
+		rr, _, _ := in.query(nil, false)
 		if rr == smt.Unsat {
 			panic(abortPath{abortStop, "assertion fails on the whole path"})
 		}
